@@ -299,6 +299,9 @@ func registerHarnessAPI(e *Exec) {
 		"vRunSpawned": func(e *Exec, st *State, fn *ssa.Function, args []Value) []Outcome {
 			return e.runSpawned(st, 0)
 		},
+		"vSendCount": func(e *Exec, st *State, fn *ssa.Function, args []Value) []Outcome {
+			return ret(st, BV{e.tc.Int(int64(st.sends))})
+		},
 		"vSpawnCount": func(e *Exec, st *State, fn *ssa.Function, args []Value) []Outcome {
 			return ret(st, BV{e.tc.Int(int64(len(st.spawned)))})
 		},
